@@ -2,6 +2,15 @@
 use crate::{arg, argn, bytes, nums, Args};
 use fastcgi_server::protocol::varint::VarInt;
 
+pub fn dispatch(mode: &str, a: &Args) -> Option<Args> {
+    Some(match mode {
+        "vi_read" => vi_read(a),
+        "vi_write" => vi_write(a),
+        "vi_try" => vi_try(a),
+        _ => return None,
+    })
+}
+
 pub fn vi_read(a: &Args) -> Args {
     let d = bytes(&arg(a, 0));
     let mut cur = &d[..];
